@@ -38,6 +38,7 @@ Definition hash (d : id) : Z := fold_left hash_step d 2166136261.
 Definition SvHello : Z := 2.
 Definition SvRegister : Z := 3.
 Definition SvComplete : Z := 4.
+Definition SvShutdown : Z := 5.
 Definition MvRefresh : Z := 7.
 
 (* error classes returned by talk / talkSub *)
@@ -423,10 +424,19 @@ Fixpoint presolve_tags (host : id) (cl : gmap Z pclient) (tags seen : list Z) (a
   end.
 
 (* Proxy.talk for a single packet (the proxy parses nothing: every hello of a free slot registers) *)
+(* a registered client announces its shutdown: the packet is passed on upstream, acknowledged, and
+   p.close <- hash makes Proxy.prune delete the entry under that hash (the entry of this very
+   client: the full-ID check comes first) *)
+Definition p_is_own (chk : bool) (x : proxy) (d : id) : bool :=
+  match plookup chk (x_clients x) d with POwn _ => true | _ => false end.
+Definition proxy_shutdown (x : proxy) (n : leaf) : proxy :=
+  Proxy (delete (hash (l_dev n)) (x_clients x)) (x_up x ++ [(l_dev n, l_pid n, l_job n)]).
+
 Definition proxy_talk_g (chk : bool) (x : proxy) (n : leaf) (tags : list Z) : proxy * ans :=
   let d := l_dev n in
   if id_empty d then (x, AErr EClosed) else
   let i := hash d in
+  if (l_pid n =? SvShutdown) && p_is_own chk x d then (proxy_shutdown x n, AReply false [(d, SvShutdown, l_job n)]) else
   match (match plookup chk (x_clients x) d with
          | POwn c => Some (x, true)
          | POther _ => None
@@ -460,6 +470,7 @@ Definition proxy_talk_sub_g (chk : bool) (x : proxy) (n : leaf) (o : bool) : pro
   let d := l_dev n in
   if id_empty d then (x, AErr EClosed) else
   let i := hash d in
+  if (l_pid n =? SvShutdown) && p_is_own chk x d then (proxy_shutdown x n, ASub None 0 None [(d, SvShutdown, l_job n)]) else
   match (match plookup chk (x_clients x) d with
          | POwn c => Some x
          | POther _ => None
@@ -561,6 +572,9 @@ Inductive cop :=
 | KPkt (d : id) (tags : list Z)      (* a Channel packet of d with this tag list *)
 | KClose (d : id)                    (* d's Channel connection ends *)
 | KSend (d : id) (pid job : Z)       (* the operator queues a packet for d: Server.Session(d).Send *)
+| KSendAs (d lbl : id) (pid job : Z) (* the same with a packet that has NO Device: Session.queue stamps it
+                                        with local.UUID (lbl: on a server that is the server's own ID) *)
+| KDrain (d : id)                    (* what d's Channel connection sends next: Session.next(false) of the host *)
 | KPoll (d : id).                    (* d polls the Listener on a connection of its own *)
 
 (* the key of d's running Channel *)
@@ -608,6 +622,23 @@ Definition cstep (w : cworld) (o : cop) : cworld * ans :=
       let q := match w_route w !! hash d with Some hk => hk | None => hash d end in
       (CW (push_out (w_tbl w) q (d, pid, job)) (w_route w) (w_subs w), AFound (Some (s_id s)))
     | None => (w, AFound None)
+    end
+  | KSendAs d lbl pid job =>
+    match server_session (w_tbl w) d with
+    | Some s =>
+      let q := match w_route w !! hash d with Some hk => hk | None => hash d end in
+      (CW (push_out (w_tbl w) q (lbl, pid, job)) (w_route w) (w_subs w), AFound (Some (s_id s)))
+    | None => (w, AFound None)
+    end
+  | KDrain d =>
+    match chan_open_key w d with
+    | Some hk =>
+      match w_tbl w !! hk with
+      | Some h => if is_nil (s_out h) then (w, ABool false)
+                  else let '(h', l) := next_false h in (CW (<[hk := h']> (w_tbl w)) (w_route w) (w_subs w), AReply true l)
+      | None => (w, ABool false)
+      end
+    | None => (w, ABool false)
     end
   | KPoll d =>
     match chan_open_key w d with
@@ -750,7 +781,7 @@ Record fobs := FObs { fo_ans : ans; fo_evs : list ev; fo_q : list wpkt }.
 
 Inductive case :=
 | CHash (d : id) (h : Z)                                        (* ID.Hash *)
-| CConsts (hello register complete refresh : Z)                 (* SvHello, SvRegister, SvComplete, MvRefresh *)
+| CConsts (hello register complete refresh shutdown : Z)        (* SvHello, SvRegister, SvComplete, MvRefresh, SvShutdown *)
 | CHist (ops : list op) (o : list obs)                          (* a history on a fresh Server + Listener *)
 | CProxy (ops : list pop) (o : list pobs)                       (* a history on a fresh Proxy *)
 | CChan (ops : list cop) (o : list cobs)                        (* a history with Channels on a fresh Server + Listener *)
@@ -858,7 +889,7 @@ Fixpoint frun_check (F : Z) (A : id) (w : fworld) (ops : list fop) (o : list fob
 Definition check_g (chk : bool) (c : case) : bool :=
   match c with
   | CHash d h => hash d =? h
-  | CConsts a b c d => (a =? SvHello) && (b =? SvRegister) && (c =? SvComplete) && (d =? MvRefresh)
+  | CConsts a b c d e => (a =? SvHello) && (b =? SvRegister) && (c =? SvComplete) && (d =? MvRefresh) && (e =? SvShutdown)
   | CHist ops o => run_check chk 1 ∅ ops o
   | CProxy ops o => prun_check chk (Proxy ∅ []) ops o
   | CChan ops o => crun_check cw0 ops o
